@@ -10,8 +10,8 @@ for d in seeded/*/; do
   n=$(basename $d)
   [ -n "$1" ] && [ "$1" != "--all" ] && ! echo "$n" | grep -q "$1" && continue
   prop=$(python3 -c "import json;m=json.load(open('$d/meta.json'));print((m.get('checks') or [m['property']])[0])")
-  if ! git -C /repo apply --check $d/patch.diff 2>/dev/null; then echo "$n $prop does-not-apply" >> $log; continue; fi
-  git -C /repo apply $d/patch.diff
+  if ! git -C /repo apply --check /verif/$d/patch.diff 2>/dev/null; then echo "$n $prop does-not-apply" >> $log; continue; fi
+  git -C /repo apply /verif/$d/patch.diff
   s=$(date +%s)
   ./check $prop quick > work/sweep-$n.out 2> work/sweep-$n.err; rc=$?
   e=$(date +%s)
